@@ -43,7 +43,8 @@ def install(names, ctx):
         if n in _INSTALLED:
             continue
         {'buf': install_buf, 'tok': install_tok, 'read': install_read,
-         'args': install_args, 'edit': install_edit, 'reach': install_reach}[n]()
+         'args': install_args, 'edit': install_edit, 'reach': install_reach,
+         'loops': install_loops}[n]()
         _INSTALLED.add(n)
 
 
@@ -416,3 +417,48 @@ def install_reach():
     mon.register_callback(tool, mon.events.PY_START, on_start)
     mon.register_callback(tool, mon.events.LINE, on_line)
     mon.set_events(tool, mon.events.PY_START | mon.events.LINE)
+
+
+# ---------------------------------------------------------------- P-loops --
+
+LOOP_BUDGET = {'limit': None}
+# hot `for` loops over module-level constant tables (20 category codes per
+# character, ~150 sizing commands per command name): bounded by construction
+BOUNDED_FOR_LOOPS = ('categorize', 'tokenize_punctuation_command_name')
+
+
+def install_loops():
+    """C06 in situ: loop-iteration budget.  sys.monitoring JUMP events fire on
+    every backward jump (one per iteration of any `while`/`for` loop) in the
+    code of TexSoup; they are counted per parse (ctx.case_info['jumps']) and
+    the parse is aborted with ProbeAbort when the count exceeds the budget
+    set by the property.  This bounds *every* loop of the package, also the
+    ones that call none of the wrapped functions (e.g. a reader that pushes a
+    token back and reads it again forever)."""
+    import sys
+    mon = sys.monitoring
+    tool = mon.PROFILER_ID
+    try:
+        mon.use_tool_id(tool, 'tsv-loops')
+    except ValueError:
+        return
+    root = os.path.join(env.REPO, 'TexSoup') + os.sep
+
+    def on_jump(code, src_off, dst_off):
+        if not code.co_filename.startswith(root):
+            return mon.DISABLE
+        if dst_off > src_off:
+            return mon.DISABLE            # a forward jump is not a loop edge
+        if code.co_qualname in BOUNDED_FOR_LOOPS:
+            return mon.DISABLE            # `for` over a fixed table: cannot spin
+        info = CTX.case_info
+        n = info.get('jumps', 0) + 1
+        info['jumps'] = n
+        lim = LOOP_BUDGET['limit']
+        if lim is not None and n > lim:
+            info['over_loop_budget'] = True
+            LOOP_BUDGET['limit'] = None      # raise once
+            raise ProbeAbort('loop-iteration budget exceeded in %s' % code.co_qualname)
+
+    mon.register_callback(tool, mon.events.JUMP, on_jump)
+    mon.set_events(tool, mon.events.JUMP)
